@@ -21,7 +21,7 @@ pub fn seeds() -> &'static (Vec<String>, Vec<String>) {
 thread_local! { static STATS: RefCell<(u64, Vec<u64>)> = const { RefCell::new((0, Vec::new())) }; }
 
 pub fn case_groups(case: &Value) -> Vec<RuleGroup> {
-    case["groups"].as_array().map(|gs| gs.iter().enumerate().map(|(i, g)| RuleGroup { name: format!("g{i}"), rule: strs(g), description: String::new() }).collect()).unwrap_or_default()
+    case["groups"].as_array().map(|gs| gs.iter().enumerate().map(|(i, g)| { let r = strs(g); if r.is_empty() && g.as_array().map(|a| a.is_empty()).unwrap_or(false) && i % 2 == 1 { RuleGroup::new() } else { RuleGroup { name: format!("g{i}"), rule: r, description: String::new() } } }).collect()).unwrap_or_default()
 }
 pub fn strs(v: &Value) -> Vec<String> { v.as_array().map(|a| a.iter().map(|x| x.as_str().unwrap_or("").to_string()).collect()).unwrap_or_default() }
 
@@ -213,4 +213,28 @@ impl Property for C02 {
             let mut v = s.1.clone(); v.sort(); if !v.is_empty() { ctx.max_extra("max_permille_of_budget_p999", v[(v.len() * 999 / 1000).min(v.len() - 1)]); ctx.max_extra("max_permille_of_budget", *v.last().unwrap()); } });
     }
     fn check(&self, case: &Value) -> Outcome { check_case(case) }
+    /// thorough tier: a coverage-guided libFuzzer campaign (cargo-fuzz, ASan) over the byte-decoded target /verif/fuzzing/fuzz/fuzz_targets/fz_run.rs,
+    /// whose oracle is the same as above; every case the target flags is re-checked here through `check_case`.
+    fn post(&self, tier: Tier, seed: u64, _results: &[Value], extra: &mut std::collections::BTreeMap<String, Value>) -> Vec<(String, Value, Value)> {
+        if tier != Tier::Thorough || std::env::var("VERIF_NO_LIBFUZZER").is_ok() { return vec![] }
+        let runs: u64 = std::env::var("VERIF_FUZZ_RUNS").ok().and_then(|s| s.parse().ok()).unwrap_or(1_500_000);
+        let fz = format!("{VERIF}/target/tmp/fz"); let _ = std::fs::remove_dir_all(&fz);
+        let corpus = format!("{VERIF}/target/tmp/fzcorpus"); let _ = std::fs::remove_dir_all(&corpus); let _ = std::fs::create_dir_all(&corpus);
+        for (i, r) in seeds().0.iter().enumerate().take(400) { let mut b = vec![2u8, 0]; b.extend(r.as_bytes()); let _ = std::fs::write(format!("{corpus}/seed{i}"), b); }
+        let logdir = format!("{VERIF}/target/tmp/fzlogs"); let _ = std::fs::remove_dir_all(&logdir); let _ = std::fs::create_dir_all(&logdir);
+        let build = std::process::Command::new("cargo").args(["+nightly", "fuzz", "build", "--fuzz-dir", "/verif/fuzzing/fuzz", "--release", "fz_run"]).current_dir(format!("{VERIF}/fuzzing")).env("CARGO_NET_OFFLINE", "true").output();
+        if !build.map(|o| o.status.success()).unwrap_or(false) { extra.insert("libfuzzer".into(), json!("fuzz target did not build (nightly toolchain / cargo-fuzz unavailable): libFuzzer part skipped")); return vec![] }
+        let status = std::process::Command::new("cargo").args(["+nightly", "fuzz", "run", "--fuzz-dir", "/verif/fuzzing/fuzz", "--release", "fz_run", &corpus, "--", &format!("-runs={runs}"), "-len_control=0", "-max_len=256", &format!("-seed={}", seed.max(1)), "-jobs=16", "-workers=16", "-print_final_stats=1"])
+            .current_dir(&logdir).env("CARGO_NET_OFFLINE", "true").env("RUST_BACKTRACE", "0").stdout(std::process::Stdio::null()).stderr(std::process::Stdio::null()).status();
+        let mut total_runs = 0u64;
+        if let Ok(rd) = std::fs::read_dir(&logdir) { for e in rd.filter_map(|e| e.ok()) { if let Ok(t) = std::fs::read_to_string(e.path()) { for l in t.lines() { if let Some(x) = l.strip_prefix("stat::number_of_executed_units:") { total_runs += x.trim().parse::<u64>().unwrap_or(0); } } } } }
+        extra.insert("libfuzzer_executions".into(), json!(total_runs));
+        extra.insert("libfuzzer".into(), json!(format!("cargo +nightly fuzz run fz_run: 16 jobs x {runs} runs, ASan, corpus seeded with 400 valid rules, exit {:?}", status.map(|s| s.code()))));
+        let mut out = vec![];
+        if let Ok(rd) = std::fs::read_dir(&fz) { for e in rd.filter_map(|e| e.ok()) {
+            let Ok(case): Result<Value, _> = serde_json::from_str(&std::fs::read_to_string(e.path()).unwrap_or_default()) else { continue };
+            if let Outcome::Fail { signature, detail } = check_case(&case) { out.push((signature, case, detail)); }
+        } }
+        out
+    }
 }
